@@ -48,6 +48,9 @@ enum Ev {
     /// same sequence number, flags and IIN as the previous unsolicited fragment, new contents:
     /// not a repetition, so it is delivered (and confirmed) like any other accepted fragment
     UnsSameSeq,
+    /// an unsolicited response that is not a single fragment (FIR and FIN not both set) is not
+    /// acceptable: neither delivered nor confirmed
+    UnsFlags(bool, bool),
     Silence,
 }
 
@@ -72,6 +75,9 @@ fn alphabet() -> Vec<Ev> {
         Ev::Uns { data: true, con: false, dup: false, foreign: false },
         Ev::UnsMalformed,
         Ev::UnsSameSeq,
+        Ev::UnsFlags(true, false),
+        Ev::UnsFlags(false, true),
+        Ev::UnsFlags(false, false),
         s(true, true, false, 0, false, Body::Truncated, 0),
         s(true, true, true, 0, false, Body::UnknownObject, 0),
         s(true, true, true, 0, false, Body::Ideal, app::iin2::NO_FUNC_CODE_SUPPORT),
@@ -241,6 +247,12 @@ impl Scenario for C15 {
                     useq = (useq + 1) & 0x0F;
                     let frag = app::response(app::ctrl(true, true, true, true, useq), fc::UNSOLICITED_RESPONSE, 0, 0, &[30, 1, 0x00, 0, 0, 0x01, 0x02]);
                     // not accepted: neither delivered nor confirmed
+                    sim.respond(&frag);
+                    sent = Some(frag);
+                }
+                Ev::UnsFlags(fir, fin) => {
+                    useq = (useq + 1) & 0x0F;
+                    let frag = app::response(app::ctrl(*fir, *fin, true, true, useq), fc::UNSOLICITED_RESPONSE, 0, 0, &measurement_objects(n_value));
                     sim.respond(&frag);
                     sent = Some(frag);
                 }
@@ -518,6 +530,7 @@ fn short(ev: &Ev) -> String {
         Ev::Silence => "silence".into(),
         Ev::UnsMalformed => "uns-malformed".into(),
         Ev::UnsSameSeq => "uns-same-seq-new-contents".into(),
+        Ev::UnsFlags(fir, fin) => format!("uns-fir{}fin{}", *fir as u8, *fin as u8),
         Ev::Uns { data, con, dup, foreign } => format!("uns-data{}-con{}-dup{}-foreign{}", *data as u8, *con as u8, *dup as u8, *foreign as u8),
         Ev::Sol { fir, fin, con, uns, dseq, foreign, body, iin2 } => format!(
             "sol-fir{}fin{}con{}uns{}-dseq{}-foreign{}-{:?}-iin{}",
